@@ -73,5 +73,43 @@ CHECKS = {
         note="Free-float mode exempts points within 1e-9*size of a window edge; up to 40 points and 6x6 windows per case.",
         technique="property-based testing (Hypothesis) against a brute-force closed-square membership model in rational arithmetic",
     ),
+    "C15": dict(
+        text="Generated data/query clouds (integer lattices with exact distances, jittered scatters, clusters, far queries; 1-D/2-D shapes) judged "
+             "against O(n*m) numpy distance matrices: KNeighbors = reduction of the values of exactly the k nearest points for every k and four "
+             "reductions; median_distance = median of the k nearest other distances with and without anisotropic projection; distance_mask true exactly "
+             "where the nearest projected data point is within maxdist (exact squared-distance comparison on the lattice); grid form blanks exactly the False cells.",
+        design_ref="DESIGN.md 5 (C15)",
+        note="Ties (k-th vs (k+1)-th distance within 1e-9 relative, |d_min - maxdist| within 1e-9) are excluded and counted; up to 30 data and 20 query points per case.",
+        technique="property-based testing (Hypothesis) against brute-force distance matrices",
+    ),
+    "C16": dict(
+        text="convexhull_mask judged against an exact convex hull (Andrew's monotone chain with integer/rational orientation tests): strictly inside "
+             "=> True, strictly outside => False, under placements of scale 1e-3..1e7, aspect and offsets, array vs grid form, projections. project_grid "
+             "judged for name, shape, regular grid of the (requested) region, NaN outside / finite inside the exact hull of the projected data, value "
+             "reproduction at nodes for affine maps without antialiasing, affine-field reproduction, and the input range bound for nearest/linear.",
+        design_ref="DESIGN.md 5 (C16)",
+        note="Boundary points exempt (1e-9 / 1e-6 of the cloud diameter); open known finding D12 (antialias + linear/cubic: NaN within one block of the hull boundary, or "
+             "triangulation failure on the block-averaged points) is matched narrowly and reported as KNOWN-FINDING.",
+        technique="property-based testing (Hypothesis) against an exact rational convex-hull model and metamorphic placement",
+    ),
+    "C18": dict(
+        text="Generated grids (1..7 x 1..7, non-uniform/descending axes, 0-4 variables with distinct values, 0-3 extra coordinates, custom dims/names, "
+             "1-D or meshgrid coordinates): make_xarray_grid must place every value at its cell (checked on the arrays and by coordinate lookup), "
+             "grid_to_table must return the raveled inputs in row-major order for Datasets and (un)named DataArrays built by verde or directly with "
+             "xarray in either coordinate order; the 1-D/2-D conversions are mutually inverse; non-meshgrids and name-count mismatches are rejected.",
+        design_ref="DESIGN.md 5 (C18)",
+        note="Axis values pairwise distinct; column order of the table is not asserted (the property does not fix it).",
+        technique="property-based testing (Hypothesis) with round-trip and cell-by-cell oracles",
+    ),
+    "C19": dict(
+        text="Grammar-based generation of well-formed Surfer files (six number formats per token, whitespace/blank-line noise, blanks, both dtypes, "
+             "path/StringIO/open-file delivery) compared cell by cell with a strict tokenizer; 15 kinds of single header/body faults that must be "
+             "refused; character-edited files and an atheris (libFuzzer) byte-level campaign with a structure-aware decoder, both judged by: if "
+             "load_surfer returns, the grid equals the strict reading and the header agrees with the body, and a strictly well-formed text is never "
+             "refused; files opened by the function are closed on every path and caller-supplied objects left open.",
+        design_ref="DESIGN.md 5 (C19)",
+        note="Header layout as load_surfer documents it; texts with tokens that are not finite Python floats are outside the oracle; libFuzzer campaigns are pinned only approximately by -seed/-runs.",
+        technique="grammar-based property testing (Hypothesis) + coverage-guided fuzzing (atheris) with a differential strict-parser oracle",
+    ),
 }
 NOT_APPLICABLE = {}
